@@ -318,4 +318,85 @@ def rule_d(prog, rep):
                           'the stored data (traversal reaches the `#` or not)', key=f'C04.d/{fname}/no-upfront-validation')
 
 
-RULES = [('C04.a', rule_a), ('C04.b', rule_b), ('C04.c', rule_c), ('C04.d', rule_d)]
+def rule_e(prog, rep):
+    rep.rule('C04.e', 'T4', 'segment classification: From<&str> for KeySegment maps exactly "?" to Wildcard and "#" to MultiWildcard and '
+             'every other text to Regular(text); AsRef<str> / Deref / Display map the variants back to the same texts; '
+             'KeySegment::parse and parse_segments split on "/" and convert every segment; parse_segments rejects both wildcards')
+    common = prog.crate(COMMON)
+    fr = [f for f in common.top_fns() if short(f.path) == 'from' and 'KeySegment' in f.path and "str" in f.sig.split('->')[0] and 'String' not in f.sig.split('->')[0]]
+    if len(fr) != 1:
+        raise AnchorMissing(f'From<&str> for KeySegment ({len(fr)})')
+    f = fr[0]
+    ms = [nd for nd, a in common.walk_fn(f) if nd.get('k') == 'match']
+    got = {}
+    if ms:
+        for arm in ms[0]['arms']:
+            p_ = arm['pat']
+            c = [short(ctor_name(nd)) for nd, a in walk(arm['body']) if ctor_name(nd) and 'KeySegment::' in ctor_name(nd)]
+            if p_.get('k') == 'plit':
+                got[p_['v'].get('v')] = c[0] if c else '?'
+            else:
+                got['*'] = c[0] if c else '?'
+    want = {'?': 'Wildcard', '#': 'MultiWildcard', '*': 'Regular'}
+    if got == want:
+        rep.ok('C04.e', 'From<&str>', f.loc, '"?" -> Wildcard, "#" -> MultiWildcard, other -> Regular')
+    else:
+        rep.violation('C04.e', 'From<&str>', f.loc, f'classification {got}', key='C04.e/from-str/' + '|'.join(f'{k}:{v}' for k, v in sorted(got.items())),
+                      expected=str(want))
+    for tr in ('AsRef', 'Deref', 'Display'):
+        cands = [g for g in common.top_fns() if 'KeySegment' in g.path and (f'{tr}' in g.path) and short(g.path) in ('as_ref', 'deref', 'fmt')]
+        for g in cands:
+            ms = [nd for nd, a in common.walk_fn(g) if nd.get('k') == 'match']
+            if not ms:
+                continue
+            back = {}
+            for arm in ms[0]['arms']:
+                vs = {short(v) for v in pat_variants(arm['pat'])}
+                lits = [nd['v'].get('v') for nd, a in walk(arm['body']) if nd.get('k') == 'lit' and nd['v'].get('t') == 'str']
+                lits += [x.strip() for nd, a in walk(arm['body']) if nd.get('k') == 'lit' and nd['v'].get('t') == 'bytestr' for x in [nd['v'].get('v')] if x.strip() in ('?', '#')]
+                for v in vs:
+                    back[v] = [x for x in lits if x in ('?', '#')]
+            if back.get('Wildcard') == ['?'] and back.get('MultiWildcard') == ['#']:
+                rep.ok('C04.e', f'{tr} for KeySegment', g.loc, 'Wildcard -> "?", MultiWildcard -> "#"')
+            else:
+                rep.violation('C04.e', f'{tr} for KeySegment', g.loc, f'inverse mapping {back}', key=f'C04.e/{tr}')
+    ps = common.fn('parse_segments')
+    b = Bindings(common, ps)
+    ms = [nd for nd, a in common.walk_fn(ps) if nd.get('k') == 'match' and 'KeySegment' in str(nd.get('scrut_ty'))]
+    loops = [nd for nd, a in common.walk_fn(ps) if nd.get('k') == 'for']
+    res = []
+    if not loops or not any('split' in x or 'param(pattern)' in x for x in b.origins(loops[0]['iter'])):
+        res.append('does not iterate the segments of its argument')
+    else:
+        sp = [nd for nd, a in common.walk_fn(ps) if nd.get('k') == 'call' and short(callee(nd)) == 'split']
+        if not sp or sp[0]['args'][1].get('k') != 'lit' or sp[0]['args'][1]['v'].get('v') != '/':
+            res.append('does not split on "/"')
+    if ms:
+        for arm in ms[0]['arms']:
+            vs = {short(v) for v in pat_variants(arm['pat'])}
+            errs = [short(ctor_name(nd)) for nd, a in walk(arm['body']) if ctor_name(nd) and 'WorterbuchError::' in ctor_name(nd)]
+            ret = any(x.get('k') == 'return' for x, _ in walk(arm['body']))
+            if vs == {'Wildcard'} and (errs != ['IllegalWildcard'] or not ret):
+                res.append(f'`?` segment -> {errs}')
+            if vs == {'MultiWildcard'} and (errs != ['IllegalMultiWildcard'] or not ret):
+                res.append(f'`#` segment -> {errs}')
+            if vs == {'Regular'} and (errs or not any(x.get('k') == 'call' and short(callee(x)) == 'push' for x, _ in walk(arm['body']))):
+                res.append('literal segment is not collected')
+            if '_' in vs:
+                res.append('catch-all arm')
+    else:
+        res.append('no match over KeySegment')
+    if res:
+        rep.violation('C04.e', 'parse_segments', ps.loc, '; '.join(res), key='C04.e/parse_segments/' + '|'.join(res))
+    else:
+        rep.ok('C04.e', 'parse_segments', ps.loc, 'split on "/", literal segments collected, `?` -> IllegalWildcard, `#` -> IllegalMultiWildcard')
+    kp = common.fn('KeySegment::parse')
+    sp = [nd for nd, a in common.walk_fn(kp) if nd.get('k') == 'call' and short(callee(nd)) == 'split']
+    mp = [nd for nd, a in common.walk_fn(kp) if nd.get('k') == 'call' and short(callee(nd)) == 'map']
+    if sp and sp[0]['args'][1].get('k') == 'lit' and sp[0]['args'][1]['v'].get('v') == '/' and mp and 'KeySegment' in str(mp[0].get('ty')):
+        rep.ok('C04.e', 'KeySegment::parse', kp.loc, 'split on "/" and convert every segment')
+    else:
+        rep.violation('C04.e', 'KeySegment::parse', kp.loc, 'does not split on "/" and convert each segment', key='C04.e/parse')
+
+
+RULES = [('C04.e', rule_e), ('C04.a', rule_a), ('C04.b', rule_b), ('C04.c', rule_c), ('C04.d', rule_d)]
